@@ -581,5 +581,111 @@ def rule_memorder(ctx):
     return res.finish(2)
 
 
+def rule_extent(ctx):
+    """Records::nsamples / nfeatures of an array are the extents of axis 0 / axis 1 on every path - also for an array
+    with zero rows (a (0, k) matrix has k features: the empty part of a split keeps its feature names)."""
+    res = RuleResult("R-C02-extent", "Records::nsamples and Records::nfeatures of ArrayBase are axis extents (axis 0 / axis 1) on every path")
+    F = ctx.facts()
+    found = 0
+    for fn in F.all_fns():
+        d = fn["d"]
+        if d["krate"] != "linfa" or d["name"] not in ("nsamples", "nfeatures") or not (d.get("trait") or "").endswith("Records") or "ArrayBase" not in (d.get("self_ty") or d.get("self_adt") or ""):
+            continue
+        found += 1
+        key = fn_key(fn)
+        axis = "0" if d["name"] == "nsamples" else "1"
+        c = fn["crate"]
+        res.instance("%s : extent of axis %s" % (key, axis))
+
+        def is_extent(e):
+            e = peel_refs(e)
+            kk = e.get("k")
+            if kk == "MethodCall":
+                if e["name"] == "len_of" and len(e["args"]) == 1:
+                    a = peel_refs(e["args"][0])
+                    return a.get("k") == "Call" and a["args"] and peel_refs(a["args"][0]).get("v") == axis
+                if e["name"] == ("nrows" if axis == "0" else "ncols") and not e["args"]:
+                    return True
+            if kk == "Index":
+                b, i = peel_refs(e["e"]), peel_refs(e["i"])
+                return b.get("k") == "MethodCall" and b["name"] in ("shape", "raw_dim") and i.get("v") == axis
+            if kk == "Field" and e["name"] == axis:
+                b = peel_refs(e["e"])
+                return b.get("k") == "MethodCall" and b["name"] == "dim"
+            return False
+
+        def tails(e):
+            """value expressions of all paths"""
+            e = strip(e)
+            kk = e.get("k")
+            if kk == "Block":
+                out = []
+                for x in walk(e):
+                    if x.get("k") == "Ret" and x.get("e") is not None:
+                        out += tails(x["e"])
+                return out + (tails(e["e"]) if e.get("e") is not None else [])
+            if kk == "If":
+                return tails(e["then"]) + (tails(e["else"]) if e.get("else") is not None else [])
+            if kk == "Match":
+                out = []
+                for a in e["arms"]:
+                    out += tails(a["body"])
+                return out
+            return [e]
+        ts = tails(fn["body"])
+        bad = [t for t in ts if not is_extent(t)]
+        if not ts:
+            res.undecided("%s : no-value" % key, "no value expression found", fn_loc(fn))
+        elif bad:
+            r = Render(c)
+            lits = [t for t in bad if peel_refs(t).get("k") == "Lit"]
+            if lits or any(x.get("k") == "Binary" for t in bad for x in walk(t)):
+                res.violate("%s : not-an-axis-extent" % key, "`%s` returns `%s` on some path instead of the extent of axis %s: for an array without rows (or with more than two axes) the count differs from the shape, and names / column selections attached to it no longer fit" % (d["name"], r.e(bad[0])[:60], axis), fn_loc(fn, bad[0].get("ln")))
+            else:
+                res.undecided("%s : extent-form" % key, "value `%s` not recognised as an axis extent" % r.e(bad[0])[:60], fn_loc(fn, bad[0].get("ln")))
+        else:
+            res.ok()
+    if found < 2:
+        res.missing_anchor("Records::nsamples / nfeatures for ArrayBase (found %d)" % found)
+    return res.finish(2)
+
+
+def rule_search(ctx):
+    """A membership test decides which samples a label filter keeps.  `binary_search` is a membership test only on a
+    sorted sequence; on a caller-supplied slice (whose order the API does not prescribe) it misses listed elements, and
+    the samples carrying them are dropped together with their weights."""
+    res = RuleResult("R-C02-search", "binary_search in the dataset code runs on a sequence that was sorted in the same function, never directly on a caller-supplied slice")
+    F = ctx.facts()
+    fns = [f for f in F.all_fns() if f["d"]["krate"] == "linfa" and fn_file(f).startswith("src/dataset/")]
+    n_sites = 0
+    for fn in fns:
+        params = set(b["local"] for p_ in fn["params"] for b in pat_bindings(p_))
+        sorted_locals = {}
+        for n in walk(fn["body"]):
+            if n.get("k") == "MethodCall" and n["name"] in ("sort", "sort_unstable", "sort_by", "sort_unstable_by", "sort_by_key", "sort_unstable_by_key"):
+                t = peel_refs(n["recv"])
+                if t.get("k") == "Path" and "local" in t:
+                    sorted_locals.setdefault(t["local"], n["ln"])
+        for n in walk(fn["body"]):
+            if n.get("k") != "MethodCall" or not n["name"].startswith("binary_search"):
+                continue
+            n_sites += 1
+            key = fn_key(fn)
+            t = peel_refs(n["recv"])
+            res.instance("%s : %s on `%s`" % (key, n["name"], t.get("name", "?")))
+            if t.get("k") == "Path" and t.get("local") in sorted_locals and sorted_locals[t["local"]] <= n["ln"]:
+                res.ok()
+            elif t.get("k") == "Path" and t.get("local") in params:
+                res.violate("%s : binary-search-on-caller-slice:%s" % (key, t.get("name")), "`%s.%s(..)` searches the caller's slice, which is never sorted here: for an unsorted list the search misses listed elements and the samples carrying them are dropped" % (t.get("name"), n["name"]), fn_loc(fn, n["ln"]))
+            else:
+                res.undecided("%s : binary-search-order" % key, "the order of the sequence handed to %s is not established in this function" % n["name"], fn_loc(fn, n["ln"]))
+    res.instance("%d dataset functions scanned, %d binary searches" % (len(fns), n_sites))
+    if fns:
+        res.ok()
+    else:
+        res.missing_anchor("dataset functions of crate linfa")
+    return res.finish(1)
+
+
 def rules(tier):
-    return [rule_align, rule_filter, rule_columns, rule_layout, rule_domain, rule_memorder]
+    return [rule_align, rule_filter, rule_columns, rule_layout, rule_domain, rule_memorder, rule_extent, rule_search]
